@@ -831,8 +831,16 @@ func (c *checker) reference(progs []prog) {
 	}
 	c.runJobs(jobs, func(j *job, res *result) {
 		p := j.Prog
-		if res.Hang || !res.Run.OK {
-			ev.Fatal("clean first run of %s did not succeed: hang=%v %s", p.Name(), res.Hang, res.Run.Err)
+		if res.Hang {
+			ev.Fatal("clean first run of %s did not return", p.Name())
+		}
+		if !res.Run.OK {
+			// the uncached program runs (checked above): the cache operator broke it
+			for _, v := range c.judgeFirst(j, res) {
+				c.r.Violate(v.sig, v.what, v.detail)
+			}
+			broken = true
+			return
 		}
 		if p.postShuffle() && c.keyShard[p.Data] == nil {
 			// learn which key lives in which post-shuffle shard (C05's subject, not
